@@ -59,7 +59,8 @@ Qed.
 Lemma wf_facts bs : wf_char bs = true ->
   is_scalar (dec bs) = true /\ utf8_encode (dec bs) = bs /\
   exists b0 t, bs = b0 :: t /\ utf8_seq_len b0 = length bs /\ is_utf8_continuation b0 = false /\
-               Forall (fun b => is_utf8_continuation b = true) t /\ (b0 < 128 \/ 128 <= dec bs) /\ (b0 < 128 -> t = []).
+               Forall (fun b => is_utf8_continuation b = true) t /\ (b0 < 128 \/ 128 <= dec bs) /\ (b0 < 128 -> t = []) /\
+               utf8_first_byte (dec bs) = b0.
 Proof.
   intro Hw. pose proof (facts_of_wf bs Hw) as Hf. unfold char_facts in Hf.
   apply andb_true_iff in Hf as [Hf H3]. apply andb_true_iff in Hf as [H1 H2].
@@ -67,14 +68,16 @@ Proof.
   - clear - H2. revert H2. generalize (utf8_encode (dec bs)) as l. induction bs as [|x bs IH]; intros [|y l] H; cbn in H; try discriminate; [reflexivity|].
     apply andb_true_iff in H as [Hx Hl]. apply N.eqb_eq in Hx. subst. f_equal. apply IH. exact Hl.
   - destruct bs as [|b0 t]; [discriminate|]. exists b0, t. split; [reflexivity|].
-    apply andb_true_iff in H3 as [H3 H8]. apply andb_true_iff in H3 as [H3 H7]. apply andb_true_iff in H3 as [H3 H6].
+    apply andb_true_iff in H3 as [H3 H9]. apply andb_true_iff in H3 as [H3 H8]. apply andb_true_iff in H3 as [H3 H7]. apply andb_true_iff in H3 as [H3 H6].
     apply andb_true_iff in H3 as [H4 H5]. apply Nat.eqb_eq in H4. apply negb_true_iff in H5.
     split; [exact H4|]. split; [exact H5|]. split; [apply Forall_forall; rewrite forallb_forall in H6; exact H6|].
     split.
     + apply orb_true_iff in H7 as [H7|H7]; [left; apply N.ltb_lt; exact H7|right; apply N.leb_le; exact H7].
-    + intro Hlt. apply orb_true_iff in H8 as [H8|H8].
-      * apply negb_true_iff in H8. apply N.ltb_ge in H8. lia.
-      * apply Nat.eqb_eq in H8. destruct t; [reflexivity|cbn in H8; lia].
+    + split.
+      * intro Hlt. apply orb_true_iff in H8 as [H8|H8].
+        -- apply negb_true_iff in H8. apply N.ltb_ge in H8. lia.
+        -- apply Nat.eqb_eq in H8. destruct t; [reflexivity|cbn in H8; lia].
+      * apply N.eqb_eq. exact H9.
 Qed.
 
 Lemma wf_len bs : wf_char bs = true -> (1 <= length bs <= 4)%nat.
@@ -97,7 +100,7 @@ Section Text.
   Lemma u8_right_at P c R : wf_char c = true ->
     u8_next_right (P ++ c ++ R) (length P) = Ok (Some (dec c, length P + length c)%nat).
   Proof.
-    intro Hw. destruct (wf_facts c Hw) as (Hs & _ & b0 & t & -> & Hlen & _ & _ & _ & Hone).
+    intro Hw. destruct (wf_facts c Hw) as (Hs & _ & b0 & t & -> & Hlen & _ & _ & _ & Hone & _).
     unfold u8_next_right.
     replace (length P =? length (P ++ (b0 :: t) ++ R))%nat with false
       by (symmetry; apply Nat.eqb_neq; rewrite !app_length; cbn [length]; lia).
@@ -124,7 +127,7 @@ Section Text.
     (exists b0 b1 b2 b3, c = [b0; b1; b2; b3] /\ 128 <= b0 /\ 128 <= b1 /\ 128 <= b2 /\ 128 <= b3 /\
                          isc b0 = false /\ isc b1 = true /\ isc b2 = true /\ isc b3 = true /\ utf8_seq_len b0 = 4%nat).
   Proof.
-    intro Hw. destruct (wf_facts c Hw) as (_ & _ & b0 & t & Hc & Hlen & Hb0 & Ht & _ & _). subst c.
+    intro Hw. destruct (wf_facts c Hw) as (_ & _ & b0 & t & Hc & Hlen & Hb0 & Ht & _ & _ & _). subst c.
     destruct t as [|b1 [|b2 [|b3 [|b4 t]]]]; try (cbn in Hw; discriminate Hw); cbn [wf_char] in Hw; cbn [length] in Hlen.
     - left. exists b0. split; [reflexivity|]. apply N.ltb_lt. exact Hw.
     - right; left. exists b0, b1. inversion Ht as [|x l H1 _]; subst.
@@ -194,7 +197,7 @@ Section Text.
   Lemma u8_right_pos_at P c R : wf_char c = true ->
     u8_next_right_pos (P ++ c ++ R) (length P) = Ok (Some (length P + length c)%nat).
   Proof.
-    intro Hw. destruct (wf_facts c Hw) as (_ & _ & b0 & t & -> & Hlen & _ & _ & _ & Hone).
+    intro Hw. destruct (wf_facts c Hw) as (_ & _ & b0 & t & -> & Hlen & _ & _ & _ & Hone & _).
     unfold u8_next_right_pos.
     replace (length P =? length (P ++ (b0 :: t) ++ R))%nat with false
       by (symmetry; apply Nat.eqb_neq; rewrite !app_length; cbn [length]; lia).
@@ -364,4 +367,20 @@ Proof.
   replace (p <=? length (concat cs))%nat with true by (symmetry; apply Nat.leb_le; apply (bnd_len cs p Hp)).
   cbn [andb ix_next_right_pos utf8_indexer].
   destruct (view_fwd cs p Hw Hp) as [_ _ _ Hn|c b0 t Ec Hc Hq' _ _ Hn _ _ _]; rewrite Hn; [reflexivity|]. apply IH. exact Hq'.
+Qed.
+
+(* at a character boundary of well-formed text the byte under the cursor is the first byte of the encoding of the element
+   the cursor reads (the hypothesis of the start-predicate theorem of C04) *)
+Lemma first_byte_utf8 fold cs p c p' : wf_text cs -> bnd cs p ->
+  cnext (utf8_indexer fold) true (concat cs) p = Ok (Some (c, p')) ->
+  nth_error (concat cs) p = Some (utf8_first_byte c) /\ c <= 1114111.
+Proof.
+  intros Hw Hp E. change (cnext (utf8_indexer fold) true (concat cs) p) with (u8_next_right (concat cs) p) in E.
+  destruct (view_fwd cs p Hw Hp) as [_ Hn _ _|ch b0 t Ec Hc Hq' Hn Hb _ _ _ _]; rewrite Hn in E; [discriminate|].
+  injection E as Ec1 Ep. destruct (wf_facts ch Hc) as (Hs & _ & b & t' & E0 & _ & _ & _ & _ & _ & Hfb).
+  rewrite Ec in E0. injection E0 as Eb Et. subst c b. split.
+  - rewrite Hfb. unfold next_byte, peek_byte_right in Hb.
+    destruct (p =? length (concat cs))%nat; [discriminate|]. unfold getb in Hb.
+    destruct (nth_error (concat cs) p) as [x|]; cbn [bindR] in Hb; [|discriminate]. injection Hb as Hx. subst x. reflexivity.
+  - unfold is_scalar in Hs. apply andb_true_iff in Hs as [H1 _]. apply N.leb_le in H1. exact H1.
 Qed.
